@@ -13,6 +13,16 @@ Open Scope Z_scope.
 
 Inductive style := Scroll | Blink | Typewriter | Bounce.
 
+(* the names str(animation).lower() is looked up under (LCD._ANIMATION_OPTIONS; the same four literals
+   in parser._resolve_animation_arg and as keys of the emitter's helper tables) *)
+Definition style_name (s : style) : list Z :=
+  match s with
+  | Scroll => [115; 99; 114; 111; 108; 108]
+  | Blink => [98; 108; 105; 110; 107]
+  | Typewriter => [116; 121; 112; 101; 119; 114; 105; 116; 101; 114]
+  | Bounce => [98; 111; 117; 110; 99; 101]
+  end.
+
 (* ---- small row helpers (own copies; the static LCD text model lives elsewhere) *)
 Definition zlen {A} (l : list A) : Z := Z.of_nat (length l).
 Definition spaces (n : Z) : list Z := repeat 32 (Z.to_nat n).
